@@ -24,7 +24,7 @@ RULE = ("cases = model matrix A (m x p, m,p in 1..14; dense, banded blur, repeat
         "data and errors over 1e-3..1e3, parameter positions in d = 1..2, kernel SE / RQ (+ white noise / sums), three means; "
         "non-trivial = (m != p or rank-deficient A) with >= 3 hyper-parameters and condition numbers <= 1e9")
 ASSUMPTIONS = ["prior covariance K = the kernel's data-covariance builder (documented jitter and white-noise variance included)",
-               "tolerance (1e-9 + 100*kappa*eps)*scale with kappa = min(cond(I + K W), cond(A K A^T + S)) - the better of the two standard forms; kappa > 1e9 inconclusive"]
+               "tolerance (1e-9 + 400*kappa*eps)*scale with kappa = min(cond(I + K W), cond(A K A^T + S)) - the better of the two standard forms; kappa > 1e9 inconclusive"]
 
 
 @st.composite
@@ -163,8 +163,17 @@ def make(case, X, A, y, y_err, spec):
                                 prior_covariance_function=rk.build_kernel(spec), prior_mean_function=rk.build_mean(case["mean"]))
 
 
-def shape_tag(A):
+def shape_tag(A, K=None, y_err=None):
     m, p = A.shape
+    if m == p and K is not None:
+        # exactly determined problems for which the data-space form A K A^T + S is far better conditioned than the parameter-space form
+        # I + K W which the library uses whenever m >= p (a nearly singular prior covariance - a long length scale, coinciding positions -
+        # with precise data): a class of its own, see known_findings.json
+        with np.errstate(all="ignore"):
+            c_par = np.linalg.cond(np.eye(p) + K @ (A.T @ np.diag(y_err**-2.0) @ A))
+            c_dat = np.linalg.cond(A @ K @ A.T + np.diag(y_err**2))
+        if np.isfinite(c_dat) and c_par > 1e4 * c_dat:
+            return "square:data-form-far-better-conditioned"
     return "tall" if m > p else ("wide" if m < p else "square")
 
 
@@ -175,7 +184,7 @@ def body_posterior(case, ctx):
     if ref is None:
         raise Inconclusive("ill-conditioned (kappa > 1e9)")
     inv = make(case, X, A, y, y_err, spec)
-    tag = shape_tag(A)
+    tag = shape_tag(A, ref["K"], y_err)
     with np.errstate(all="ignore"):
         mu, Sig = inv.calculate_posterior(theta_arg(case, theta))
         mu_only = inv.calculate_posterior_mean(theta_arg(case, theta))
@@ -185,12 +194,14 @@ def body_posterior(case, ctx):
     p = A.shape[1]
     if mu.shape != (p,) or Sig.shape != (p, p) or mu_only.shape != (p,):
         raise Violation(f"shape:{tag}", f"posterior shapes {mu.shape}, {Sig.shape}, mean-only {mu_only.shape} for p={p}")
-    f = 1e-9 + 100 * kappa * EPS
+    # (the constant in front of kappa * eps; kappa is that of the better of the two standard forms, see reference())
+    CK = 100
+    f = 1e-9 + CK * kappa * EPS
     dK = np.sqrt(np.maximum(np.diag(ref["K"]), 1e-300))
     # mean-only path: one solve, error ~ kappa*eps at the natural scale of the terms summed
     # (the rounding error of a linear solve is norm-wise: a component much smaller than the largest one inherits the kappa*eps error of
     # the largest)
-    tol_only = f * ref["scale_mu"] + 100 * kappa * EPS * float(np.max(ref["scale_mu"]))
+    tol_only = f * ref["scale_mu"] + CK * kappa * EPS * float(np.max(ref["scale_mu"]))
     e = np.max(np.abs(mu_only - ref["mu"]) / tol_only)
     ctx.ratio("mean-only", e, 1.0)
     if not np.all(np.isfinite(mu_only)) or e > 1:
@@ -199,7 +210,7 @@ def body_posterior(case, ctx):
     # full path: the documented result is (posterior covariance) @ A^T S^-1 (y - A m) + m, so the covariance's
     # rounding error (kappa*eps at the scale of the prior covariance) is multiplied by that data vector
     u = np.abs(A.T @ ((y - A @ ref["mean"]) / y_err**2))
-    tol_full = f * (ref["scale_mu"] + dK * float(dK @ u)) + 100 * kappa * EPS * float(np.max(ref["scale_mu"]))
+    tol_full = f * (ref["scale_mu"] + dK * float(dK @ u)) + CK * kappa * EPS * float(np.max(ref["scale_mu"]))
     e = np.max(np.abs(mu - ref["mu"]) / tol_full)
     ctx.ratio("mean", e, 1.0)
     if not np.all(np.isfinite(mu)) or e > 1:
@@ -349,6 +360,7 @@ def body_history(case, ctx):
     for step, (what, j, how) in enumerate(case["ops"]):
         ref, kappa, resid = refs[j]
         f = 1e-8 + 1000 * kappa * EPS
+        cls_tag = ":square:data-form-far-better-conditioned" if shape_tag(A, ref["K"], y_err).endswith("better-conditioned") else ""
         if how == "shared":
             buf[:] = thetas[j]
             arg = buf
@@ -367,13 +379,13 @@ def body_history(case, ctx):
                 ec = np.max(np.abs(Sig - ref["Sigma"]) / (f * np.outer(dK, dK)))
                 ctx.ratio("history", max(e, ec), 1.0)
                 if not (e <= 1 and ec <= 1):
-                    raise Violation(f"history:{what}", f"{where}: posterior mean / covariance off by {e:.3g} / {ec:.3g} tolerances from the closed form")
+                    raise Violation(f"history:{what}" + cls_tag, f"{where}: posterior mean / covariance off by {e:.3g} / {ec:.3g} tolerances from the closed form")
             elif what == "mean":
                 mu = np.asarray(inv.calculate_posterior_mean(arg), dtype=float)
                 e = np.max(np.abs(mu - ref["mu"]) / tol_mu)
                 ctx.ratio("history", e, 1.0)
                 if not e <= 1:
-                    raise Violation(f"history:{what}", f"{where}: mean-only path off by {e:.3g} tolerances from the closed form")
+                    raise Violation(f"history:{what}" + cls_tag, f"{where}: mean-only path off by {e:.3g} tolerances from the closed form")
             else:
                 v = float(inv.marginal_likelihood(arg)) if what == "evidence" else float(inv.marginal_likelihood_gradient(arg)[0])
                 kappa_ev = float(np.linalg.cond(ref["G"]))      # (the evidence's own conditioning: that of A K A^T + S)
